@@ -1,4 +1,5 @@
 import Xp.Proofs.C08Trace
+import Xp.Proofs.C08Worlds
 /-
 C08 — teardown happens in dependency order.
 
@@ -110,13 +111,9 @@ theorem usage_waits_using (sm : Sem St Req Resp) (plan : Plan) (s : St) (n : Str
 
 /-! ## trace theorems: every interleaving -/
 
-/-- the configurations reachable from store `st0` with no reconcile in flight -/
-def reach (st0 : St) (acts : List Act) : Sys := Sys.run ⟨st0, []⟩ acts
-
-/-- the schedule contains no creation step: it is made of reconciles of the six modelled
-deletion branches (each call with any fault outcome), user deletions, garbage collection
-steps, finalizer removals and crashes -/
-def NoCreate (acts : List Act) : Prop := ∀ a ∈ acts, a.isCreate = false
+/- `reach st0 acts` is the configuration reached from store `st0` with no reconcile in
+flight by schedule `acts`; `NoCreate acts` says the schedule has no creation step (both in
+Xp.Model.C08). -/
 
 /-- General form: in every reachable configuration the next request of every in-flight
 reconcile satisfies `safeReq` in the current store. -/
@@ -236,16 +233,6 @@ theorem trace_usage_waits_using (st0 : St) (acts : List Act) (hn : NoCreate acts
 
 /-! ## the restriction to creation-free schedules is necessary -/
 
-private def mk (k : Key) (uid : Nat) (fins : List String) (del : Bool) : Obj :=
-  { key := k, uid := uid, rv := uid, fins := fins, del := del, owners := [], conds := [], paused := false,
-    ref := "", of := "", flag := false, inuse := false, pkgs := [] }
-
-private def raceWorld : St :=
-  { objs := [{ mk ⟨.xrd, "xs.example.org"⟩ 1 [c08DefinedFinalizer, c08OfferedFinalizer] true with ref := "xs.example.org", of := "cs.example.org" },
-             { mk ⟨.crd, "xs.example.org"⟩ 2 [] false with owners := [⟨1, true, true⟩] },
-             { mk ⟨.claim, "ns/c"⟩ 3 [c08ClaimFinalizer] false with ref := "x" }],
-    nextRv := 4, running := [compositeCtrl "xs.example.org"] }
-
 /-- The definition reconcile reads "no XR left"; a reconcile of the still-live claim then
 re-creates the claim's XR (modelled as a creation step; reproduced on the real claim
 reconciler, see corpus/C08/recreate-race.jsonl); the definition reconcile goes on
@@ -254,21 +241,16 @@ same happens for Delete(crd) one call later. This is why the trace theorems assu
 `NoCreate` — and a genuine time-of-check/time-of-use window of the unchanged code. -/
 theorem trace_stop_after_instances_fails_with_recreation_witness :
     (reach raceWorld [.spawn .defined "xs.example.org", .step 0 .ok, .step 0 .ok, .step 0 .ok, .step 0 .ok, .step 0 .ok,
-      .create (mk ⟨.xr, "x"⟩ 9 [] false)]).unsafeAt 0 = true ∧
+      .create (mk ⟨.xr, "x"⟩ 9 [] false)]).violatesAt 0 = true ∧
     (reach raceWorld [.spawn .defined "xs.example.org", .step 0 .ok, .step 0 .ok, .step 0 .ok, .step 0 .ok, .step 0 .ok,
-      .create (mk ⟨.xr, "x"⟩ 9 [] false), .step 0 .ok]).unsafeAt 0 = true := by decide
+      .create (mk ⟨.xr, "x"⟩ 9 [] false), .step 0 .ok]).violatesAt 0 = true := by decide
 
 /-- without the creation step the same schedule is safe at both points -/
 example :
-    (reach raceWorld [.spawn .defined "xs.example.org", .step 0 .ok, .step 0 .ok, .step 0 .ok, .step 0 .ok, .step 0 .ok]).unsafeAt 0 = false ∧
-    (reach raceWorld [.spawn .defined "xs.example.org", .step 0 .ok, .step 0 .ok, .step 0 .ok, .step 0 .ok, .step 0 .ok, .step 0 .ok]).unsafeAt 0 = false := by decide
+    (reach raceWorld [.spawn .defined "xs.example.org", .step 0 .ok, .step 0 .ok, .step 0 .ok, .step 0 .ok, .step 0 .ok]).violatesAt 0 = false ∧
+    (reach raceWorld [.spawn .defined "xs.example.org", .step 0 .ok, .step 0 .ok, .step 0 .ok, .step 0 .ok, .step 0 .ok, .step 0 .ok]).violatesAt 0 = false := by decide
 
 /-! ## non-vacuity: the guarded writes do happen -/
-
-private def claimWorld (fg : Bool) : St :=
-  { objs := [{ mk ⟨.claim, "ns/c"⟩ 1 [c08ClaimFinalizer] true with ref := "x", flag := fg },
-             { mk ⟨.xr, "x"⟩ 2 [c08XRFinalizer] false with ref := "ns/c" }],
-    nextRv := 3, running := [] }
 
 /-- Background: get claim, get XR, delete XR, remove finalizer: the claim is gone, the XR is terminating. -/
 example : (let s := reach (claimWorld false) [.spawn .claim "ns/c", .step 0 .ok, .step 0 .ok, .step 0 .ok, .step 0 .ok]
@@ -285,12 +267,6 @@ example : (let s := reach (claimWorld true) [.spawn .claim "ns/c", .step 0 .ok, 
       .spawn .claim "ns/c", .step 2 .ok, .step 2 .ok, .step 2 .ok]
     ((find s.st ⟨.claim, "ns/c"⟩).isNone, (find s.st ⟨.xr, "x"⟩).isNone)) = (true, true) := by decide
 
-private def xrdWorld : St :=
-  { objs := [{ mk ⟨.xrd, "xs.example.org"⟩ 1 [c08DefinedFinalizer] true with ref := "xs.example.org", of := "cs.example.org" },
-             { mk ⟨.crd, "xs.example.org"⟩ 2 [] false with owners := [⟨1, true, true⟩] },
-             mk ⟨.xr, "x"⟩ 3 [c08XRFinalizer] false],
-    nextRv := 4, running := [compositeCtrl "xs.example.org"] }
-
 /-- XRD teardown: first reconcile deletes the instance and waits; after the XR reconciler
 finalized it the second reconcile stops the controller and deletes the CRD; the third
 removes the finalizer. -/
@@ -300,17 +276,8 @@ example : (let s := reach xrdWorld [.spawn .defined "xs.example.org", .step 0 .o
       .spawn .defined "xs.example.org", .step 3 .ok, .step 3 .ok, .step 3 .ok, .step 3 .ok, .step 3 .ok]
     (s.st.objs.length, s.st.running)) = (0, []) := by decide
 
-private def revWorld : St :=
-  { objs := [mk ⟨.rev, "p1"⟩ 1 [c08RevisionFinalizer] true, { mk lockKey 2 [] false with pkgs := ["p1", "p2"] }],
-    nextRv := 3, running := [] }
-
 example : (let s := reach revWorld [.spawn .rev "p1", .step 0 .ok, .step 0 .ok, .step 0 .ok, .step 0 .ok, .step 0 .ok]
     ((find s.st ⟨.rev, "p1"⟩).isNone, (find s.st lockKey).map (·.pkgs))) = (true, some ["p2"]) := by decide
-
-private def usageWorld : St :=
-  { objs := [{ mk ⟨.usage, "u"⟩ 1 [c08UsageFinalizer] true with ref := "using", of := "used", flag := true },
-             mk ⟨.res, "using"⟩ 2 [] false, { mk ⟨.res, "used"⟩ 3 [] false with inuse := true }],
-    nextRv := 4, running := [] }
 
 /-- the Usage waits while the using resource exists, and is finalized once it is gone -/
 example : (let s := reach usageWorld [.spawn .usage "u", .step 0 .ok, .step 0 .ok, .del ⟨.res, "using"⟩,
